@@ -4,6 +4,7 @@ Three-way check per case:  Go tree (harness `compile`, the real parser)  =  mode
 end to end, line numbers included)  =  the generator's intended tree (property; line numbers ignored).
 Streams: layout (random layouts), toggle (each layout dimension alone, and each pair), corrupt (if the real parser accepts a damaged
 text, the tree must be complete — Python walker over the real dump, Lean walker over the model tree)."""
+import re
 import znlayout
 from zngen import cps
 from props import parsecommon as pc
@@ -14,7 +15,11 @@ RULE = ("valid programs from the six program generators (expressions, control fl
         "(own line, end of line, inline), TAB vs 4 spaces, LF/CR/CRLF/LFCR, blank lines, optional line breaks after ， 、 { 【 ： and before 】 }. "
         "Stream toggle: every single layout dimension alone and every pair, on every corpus program. Stream ungrammatical: hand-written texts the grammar does not derive (chained comparisons, two commas, missing parts, statement after a 拦截 block, unbalanced brackets …) must be rejected. Stream corrupt: token deletion, "
         "duplication, swap, splices, noise, indentation and line-break damage. Non-trivial = the laid-out text differs from the canonical one "
-        "and has at least 8 tokens.")
+        "and has at least 8 tokens. One program in three opens with 1–3 导入 statements (library / file, with and without 之 items, "
+        "sometimes two on one line, with or without `；` between / after them — a `；` on the line of a 导入 statement is part of the import "
+        "section and leaves no empty statement) below 0–3 blank lines; besides tree equality the LINE of every import node — Go's, hence the model's — "
+        "is compared with the generator's ground truth: the physical line (0-based, CR/LF/CRLF/LFCR each one line end) on which the 导入 "
+        "keyword stands in the text as laid out (comment lines, blank lines and multi-line comments above it included).")
 ASSUMPTIONS = ["the lexer model (Model/Lexer.lean, another worker's deliverable) is compared end to end here; its own theorems are C04/C13/C18's",
                "generator names avoid glyphs that would form a keyword with a neighbouring token when spaces are removed"]
 PARTIAL = ("character level PROVED for the canonical rendering (C03Chars.parse_render_canonical: lexer model composed with the parser round trip — "
@@ -37,19 +42,56 @@ def _retry_timeouts(ctx, lines, answers):
     return answers
 
 
+T_IMPORT = 0x4D
+IMPORT_POOL = [(1, '@JSON', []), (1, '@文件', ['读取文件']), (1, '@文件', ['读取文件', '写入文件']), (2, '模块甲', []), (2, '库/乙', ['子', '丑']),
+               (1, '丙库', ['寅']), (2, 'mod.zn', []), (1, '@JSON', ['生成JSON', '解析JSON', '甲'])]
+COMMENT_HEADERS = ['注：说明\n', '// x = 1\n\n', '/* 多行\n   注释 */\n', '注：“跨\n行”\n', '\n注1：「甲」\n\n', '/* a */ /* b\n*/\n']
+
+
+def add_imports(rng, prog):
+    """give a corpus program 1–3 leading 导入 statements below 0–3 blank lines (parsing only: nothing is executed in this check)"""
+    k = rng.choice([1, 1, 2, 3])
+    ims = []
+    for i in range(k):
+        ty, name, items = rng.choice(IMPORT_POOL)
+        last = i + 1 == k
+        r = rng.random()
+        if r < 0.55:
+            sep = '\n'
+        elif r < 0.65:
+            sep = '\n' if last else ' '                                   # two 导入 on one line, nothing between
+        elif r < 0.85:
+            sep = rng.choice(['；', '；；', ' ； ', '；　；']) + ('\n' if last else rng.choice(['', ' ']))   # … separated by ；
+        else:
+            sep = rng.choice(['；', '；；；', ' ；']) + '\n'                  # ； at the end of the line
+        ims.append((ty, name, items, sep))
+    prog.imports = ims
+    prog.header = '\n' * rng.choice([0, 0, 1, 2, 3])
+
+
 def check_cases(ctx, stream, cases):
-    """cases: [(source, intended sx or None, canonical source)]"""
+    """cases: [(source, intended sx or None, canonical source[, expected lines of the import nodes])]"""
     srcs = [c[0] for c in cases]
     lines = ['compile ' + cps(s) for s in srcs]
     go = _retry_timeouts(ctx, lines, ctx.run_go(lines, timeout_ms=2000))
     model = ctx.run_lean(['parse ' + cps(s) for s in srcs])
     replay = []
-    for k, (src, intended, canon) in enumerate(cases):
+    for k, case in enumerate(cases):
+        src, intended, canon = case[:3]
         ctx.evaluations += 1
         g, m = go[k], model[k]
         gc = g.split(' | ')[0]
         if gc != m:
             replay.append(k)
+        if len(case) > 3 and case[3] is not None and gc.startswith('ok '):
+            got = [int(x) for x in re.findall(r'\(import (\d+) ', gc)]
+            if case[3]:
+                ctx.count(stream + ":import-line-checked")
+            if max(case[3], default=0) >= 2:
+                ctx.count(stream + ':import-on-line>=2')
+            if got != case[3]:
+                ctx.violation(stream + ':import-line', lines[k], 'import lines %s | %s' % (got, gc[:300]),
+                              'import lines %s (0-based line of each 导入 keyword)' % case[3])
         if intended is not None:
             if not gc.startswith('ok '):
                 ctx.violation(stream + ':rejected', lines[k], g, 'ok ' + pc.strip_lines(intended)[:300])
@@ -77,18 +119,28 @@ def run(ctx):
     nprog = ctx.n(260, 5000)
     klay = ctx.n(3, 8)
     progs = pc.corpus(rng, nprog)
+    for i, p in enumerate(progs):
+        if i % 3 == 1:
+            add_imports(rng, p)
     rendered = [p.render(rng) for p in progs]
     canon = [r[0] for r in rendered]
     tk = ctx.run_go(['tokens ' + cps(s) for s in canon], timeout_ms=4000)
     spans = [pc.token_spans(t) for t in tk]
     # (a) random layouts
     cases = []
-    for (src, sx), sp in zip(rendered, spans):
+    for p, (src, sx), sp in zip(progs, rendered, spans):
         if not sp:
             continue
-        cases.append((src, sx, src))
+        cases.append((src, sx, src, list(p.import_lines)))
+        if p.imports:
+            # comment lines (single- and multi-line) above the first 导入: the import lines shift by the physical lines added
+            h = rng.choice(COMMENT_HEADERS)
+            cases.append((h + src, sx, src, [l + h.count('\n') for l in p.import_lines]))
         for _ in range(klay):
-            cases.append((znlayout.relayout(rng, src, sp), sx, src))
+            offs = []
+            text = znlayout.relayout(rng, src, sp, offsets=offs)
+            exp = [znlayout.line_index(text, o) for o, (_, _, ty) in zip(offs, sp) if ty == T_IMPORT]
+            cases.append((text, sx, src, exp))
     go, model = check_cases(ctx, 'layout', cases)
     ctx.streams.append({'stream': 'layout', 'cases': len(cases), 'programs': nprog, 'layouts_each': klay})
     for k in (1, len(cases) // 2, len(cases) - 1):
@@ -101,7 +153,9 @@ def run(ctx):
         if not sp:
             continue
         for name, lay in toggles:
-            cases.append((znlayout.relayout(rng, src, sp, lay), sx, src))
+            offs = []
+            text = znlayout.relayout(rng, src, sp, lay, offsets=offs)
+            cases.append((text, sx, src, [znlayout.line_index(text, o) for o, (_, _, ty) in zip(offs, sp) if ty == T_IMPORT]))
     check_cases(ctx, 'toggle', cases)
     ctx.streams.append({'stream': 'toggle', 'cases': len(cases), 'toggles': len(toggles)})
     # (c) corrupted renderings: accepted ⇒ complete
